@@ -77,6 +77,9 @@ class MidiMapperStorage
         TinyVector<callback_t> callbacks;
         //RT RW
         TinyVector<int> values;
+        //the controller whose /midi-use-CC this snapshot is the answer to,
+        //-1 for a snapshot sent for any other reason (unMap, clear, ...)
+        int answers = -1;
 
         bool handleCC(int ID, int val, write_cb write);
 
